@@ -63,10 +63,19 @@ def effLanguage (s : PState) (languageCountry : String) : String :=
     | some la => if la = "" || la = noPreference then "en" else la
     | none => "en"
 
+/-- `str::split('-')` on characters (structural, so that the kernel can evaluate it; `String.splitOn` is by well-founded recursion) -/
+def splitDash : List Char → List (List Char)
+  | [] => [[]]
+  | c :: rest =>
+    if c = '-' then [] :: splitDash rest
+    else match splitDash rest with
+      | h :: t => (c :: h) :: t
+      | [] => [[c]]
+
 /-- the separators of a language tag and a (valid) `DecimalSeparator` value: (`DecimalSeparators`, `BlockSeparators`) -/
 def deriveSeparators (languageCountry dec : String) : String × String :=
   let lc := asciiLower languageCountry
-  let parts := lc.splitOn "-"
+  let parts := (splitDash lc.toList).map String.ofList
   let language := parts.getD 0 ""
   let country := parts.getD 1 ""
   let usePeriod :=
@@ -106,7 +115,7 @@ def chooseMap (E : Env) (s : PState) (key value : String) : Outcome (PState × B
       | .ok s1 => .ok (s1, false)
       | .err k => .err k
       | .panic p => .panic p
-    else .ok (s, true)
+    else .ok (s, false)      -- `is_user_pref = false` also when the value is unchanged
   | none =>
     match pget s.user key with
     | some (.bool _) => .err "wrong-kind-boolean"
@@ -169,7 +178,7 @@ def isBooleanPref (s : PState) (key : String) : Option Bool :=
 /-- language tag clean-up of `set_preference`: keep the first two `-` separated parts; `none` = "Improper format" -/
 def normLanguage (value : String) : Option String :=
   if value = "Auto" then some value else
-  let parts := value.splitOn "-"
+  let parts := (splitDash value.toList).map String.ofList
   let language := parts.getD 0 ""
   let country := parts.getD 1 ""
   if language.utf8ByteSize ≠ 2 then none
